@@ -41,6 +41,8 @@ CHECKS["C07"] = {
         {"harness": "VerifC07Intf", "params": {"n": 3, "pre": [0, 1]}},
         # never-expiring duties: per-share cap of 10 exempt entries, eviction, resend (concrete shares/duties)
         {"harness": "VerifC07Exempt", "params": {}, "unwind": 14},
+        # sync-committee selections of one validator in two subcommittees (subs: bit s = subcommittee of step s)
+        {"harness": "VerifC07Subcomm", "params": {"n": 4, "k": 6, "subs": [42, 56, 7]}},
     ],
     "thorough": [
         {"harness": "VerifC07Single", "params": {"n": 4, "k": 6, "dtype": 2, "vals": [0, 21], "ints": [0, 21, 63]}, "cross": True},
@@ -50,6 +52,7 @@ CHECKS["C07"] = {
         {"harness": "VerifC07Single", "params": {"n": 4, "k": 5, "dtype": 2, "vals": 0, "ints": 0}, "reversemaps": True},
         {"harness": "VerifC07Batch", "params": {"n": [3, 4, 5], "pre": [3, 4, 5, 6, 7]}, "timeout_ms": 300000},
         {"harness": "VerifC07Batch", "params": {"n": [3, 4, 5], "pre": [3, 4, 5, 6, 7]}, "reversemaps": True, "timeout_ms": 300000},
+        {"harness": "VerifC07Subcomm", "params": {"n": 4, "k": [6, 7], "subs": [42, 56, 7, 21, 85, 102]}, "cross": True},
     ],
     "bounds": {
         "quick": "n in {3,4}, threshold ceil(2n/3); histories of k<=5 single-entry batches; share index 1..n, root in {0,1,2}, signature id (8 bit) symbolic per step; internal/external pattern and validator-per-step pattern concrete per case; loop unwinding 12; plus one two-validator batch after up to 5 preliminary single-entry stores (both map iteration orders)",
